@@ -11,6 +11,7 @@ import PdshVerif.Opt.WcollFd
 import PdshVerif.Opt.WcollBytes
 import PdshVerif.Opt.WcollLookup
 import PdshVerif.Opt.WcollTopFd
+import PdshVerif.Opt.WcollLongName
 import PdshVerif.Opt.Settings
 import PdshVerif.Dsh.Exit
 
@@ -43,6 +44,10 @@ a file reached a second time is skipped with a warning   `include_terminates`, `
 rather than looping                                      `spellings_resolve_alike`, `opened_in_cache`
 an unreadable source is an error, not an empty list      `unreadable_is_error`, `unreadable_include_is_error`,
                                                          `unresolved_include_is_error`, `error_is_final`
+include names and the path buffer fq_path[PATHBUF]      `resolved_path_fits`, `long_explicit_name_is_cut` (F10-LONGNAME, open: an
+                                                         explicit name of ≥ PATHBUF bytes IS its first PATHBUF-1 bytes),
+                                                         `explicit_name_as_written_or_error` (with the patch),
+                                                         `bare_name_too_long_is_error`
 (resources) no descriptor leaks                          `descriptors_balanced`, `open_files_le_depth`, `open_files_le_files`
 end to end (C10 ∘ C02 ∘ C01)                             `target_list_end_to_end` (+ `_is_cliWords`, `_is_cliFinalW`)
 
@@ -539,6 +544,54 @@ example :
         ["a1", "b1", "c-right", "d-right", "b2", "a2"].map String.toList ∧
       (readWcoll repairedReader fs [] "t/A".toList).1.nwarn = 1 ∧
       (WcollSpec.fileHosts fs "t/A".toList).exprs = ["a1", "b1", "c-right", "d-right", "b2", "a2"].map String.toList := by
+  decide
+
+/-! ## include names and the reader's path buffer (`fq_path [PATHBUF]`; F10-LONGNAME, open) -/
+
+/-- whatever an include line says, the path handed to `access` / `fopen` fits the buffer -/
+theorem resolved_path_fits (fs : FS) (dirs : List (List Char)) (f fq : List Char) (h : resolve fs dirs f = some fq) :
+    fq.length < PATHBUF :=
+  resolve_fits fs dirs f fq h
+
+/-- F10-LONGNAME, AS FOUND (`strncpy (buf, file, len - 1)`): for EVERY file system, search path, reader state and
+depth, including an explicit name of `PATHBUF` bytes or more IS including ANOTHER name — its first `PATHBUF - 1` bytes:
+the file system is never asked about the name that was written (which cannot exist: PATH_MAX), the hosts of the file
+at the cut name are targeted, and no error is raised.  Pinned on the real pdsh by checks/c10.py `longname:*`. -/
+theorem long_explicit_name_is_cut (mode : LineMode) (fs : FS) (dirs : List (List Char)) (k : Nat) (f : List Char)
+    (c : Ctx) (he : isExplicit f = true) (hl : PATHBUF ≤ f.length) :
+    f.take (PATHBUF - 1) ≠ f ∧
+    readFile mode fs dirs (k + 1) f c = readFile mode fs dirs (k + 1) (f.take (PATHBUF - 1)) c := by
+  have h1 := resolve_cuts_long fs dirs f he hl
+  have h2 : resolve fs dirs (f.take (PATHBUF - 1)) = some (f.take (PATHBUF - 1)) := by
+    have he' : isExplicit (f.take (PATHBUF - 1)) = true := by rw [isExplicit_take]; exact he
+    simp [resolve, he', List.take_take]
+  refine ⟨h1.2, ?_⟩
+  conv => lhs; unfold readFile
+  conv => rhs; unfold readFile
+  rw [h1.1, h2]
+
+/-- WITH findings/C10-LONGNAME.patch (`resolveR`): an explicit name is used exactly as written or it is an error
+(never another name); names that fit the buffer — every name a file can have — and all bare names resolve as before -/
+theorem explicit_name_as_written_or_error (fs : FS) (dirs : List (List Char)) (f : List Char)
+    (he : isExplicit f = true) :
+    (PATHBUF ≤ f.length → resolveR fs dirs f = none) ∧ (∀ fq, resolveR fs dirs f = some fq → fq = f) ∧
+    (f.length < PATHBUF → resolveR fs dirs f = resolve fs dirs f) :=
+  ⟨resolveR_refuses_long fs dirs f he, fun fq h => resolveR_as_written fs dirs f fq he h,
+   fun h => (resolve_eq_resolveR fs dirs f h).symm⟩
+
+/-- a bare name is looked up as `DIR/NAME`; when that does not fit the buffer it is an error in both forms
+(`snprintf` + length test → ENOSPC) -/
+theorem bare_name_too_long_is_error (fs : FS) (d name : List Char) (h : PATHBUF ≤ (d ++ '/' :: name).length)
+    (hb : isExplicit name = false) : resolve fs [d] name = none ∧ resolveR fs [d] name = none := by
+  have : pathLookup fs [d] name = none := by
+    unfold pathLookup
+    rw [if_pos h]
+  simp [resolve, resolveR, hb, this]
+
+example : isExplicit ("./".toList ++ List.replicate 5000 'a') = true ∧
+    PATHBUF ≤ ("./".toList ++ List.replicate 5000 'a').length := by
+  refine ⟨rfl, ?_⟩
+  rw [List.length_append, List.length_replicate]
   decide
 
 /-! ## descriptors: what the reader holds open (ghost `Fd` threaded through the reader, Opt/WcollFd.lean) -/
